@@ -62,6 +62,10 @@ func (i ItemCollection) MarshalJSON() ([]byte, error) {
 // and ensures ItemCollection implements the Collection interface
 func (i *ItemCollection) Append(it ...Item) error {
 	for _, ob := range it {
+		if IsNil(ob) {
+			// nothing to append
+			continue
+		}
 		if i.Contains(ob) {
 			continue
 		}
